@@ -43,8 +43,7 @@ Definition input_of (defs : list odef) (f : feat) (i : oin) : feat + nat :=
 
 (* ---------- well-formed declarations ---------- *)
 (* an options dictionary as Python can build it and compare it: pairwise different keys, every value equal to itself *)
-Definition refl_dictb (d : dict) : bool := nodupkb (dkeys d) && forallb (fun kv => py_eq (snd kv) (snd kv)) d.
-Definition ogoodb (s : ostate) : bool := refl_dictb (og s) && refl_dictb (oc s).
+(* (Model/PlannerO.v refl_dictb, ogoodb) *)
 Definition decl_ok (defs : list odef) (rq : list oreq) : Prop :=
   (forall d i, In d defs -> In i (od_ins d) -> ogoodb (oi_opt i) = true) /\ (forall r, In r rq -> ogoodb (rq_opt r) = true).
 
